@@ -26,6 +26,7 @@ THEOREMS = [
     "Measured.Obligations.init_ginv",
     "Measured.Obligations.shipped_histories_inv",
     "Measured.queries_good", "Measured.queries_good_of_initial", "Measured.good_convert", "Measured.C01.invariants_survive_every_query_history", "Measured.Obligations.History.shippedState_after", "Measured.Obligations.History.sample_history_state",
+    "Measured.history_good", "Measured.history_ext", "Measured.C01.invariants_survive_every_history",
 ]
 QUICK = {"chunks": 4, "ops": 800}
 THOROUGH = {"chunks": 16, "ops": 6000}
